@@ -175,7 +175,7 @@
         let ghost c = ec(*self);
         let ghost mut j: int = 0;
         proof { lemma_lay_facts(*self, c, bcs(*self), Seq::empty()); lemma_page_size(hs() + name@.len() + ms::<Meta>() + data@.len()); }
-//@ closure 1
+//@ closure sort_by_key 1 optional
 |obj: &(ObjectHeader, NonZeroU64)| -> (r: u64)
 //@ loop 1
         invariant
